@@ -32,7 +32,7 @@ func pre_OnRequest(s *Service, c service.Conn) bool {
 	return s != nil && c != nil && s.auth != nil && s.pubsub != nil
 }
 
-// @ verify (*Service).OnRequest pre=pre_OnRequest post=post_OnRequest_auth,post_OnRequest_changes props=C18,C11,C03
+// @ verify (*Service).OnRequest pre=pre_OnRequest post=post_OnRequest_auth,post_OnRequest_changes,post_OnRequest_changes_exact props=C18,C11,C03
 func specNoEffect() bool {
 	return vs.TraceCount("PubSub).Subscribe") == 0 && vs.TraceCount("PubSub).Unsubscribe") == 0 && vs.TraceCount("getAllPresence") == 0
 }
@@ -52,6 +52,27 @@ func post_OnRequest_changes(s *Service, res1 bool) bool {
 	// at most one of Subscribe / Unsubscribe, on the presence ssid built for this request
 	n := vs.TraceCount("PubSub).Subscribe") + vs.TraceCount("PubSub).Unsubscribe")
 	return n <= 1 && (n == 0 || vs.TraceFind("NewSsidForPresence") >= 0)
+}
+
+// ... and exactly what the request's `changes` field says, whatever its `status` field says: true = one Subscribe and
+// no Unsubscribe, false = one Unsubscribe ("none after it cancels the request") and no Subscribe, absent = neither.
+func post_OnRequest_changes_exact(s *Service, res1 bool) bool {
+	u := vs.TraceFind("json.Unmarshal")
+	if !res1 || u < 0 {
+		return true
+	}
+	msg := vs.TraceArg[*Request](u, 1)
+	if msg == nil {
+		return false
+	}
+	sub, unsub := vs.TraceCount("PubSub).Subscribe"), vs.TraceCount("PubSub).Unsubscribe")
+	if msg.Changes == nil {
+		return sub == 0 && unsub == 0
+	}
+	if *msg.Changes {
+		return sub == 1 && unsub == 0
+	}
+	return sub == 0 && unsub == 1
 }
 
 // Notify hands every notification to the delivery queue with an unconditional, blocking send - none is dropped when
